@@ -142,6 +142,10 @@ func sortKeyRule(c *Ctx) {
 					}
 				}
 			}
+			if asym := p.comparatorAsymmetry(cmp); asym != "" {
+				o.Fail("%s: for some pairs less(a,b) and less(b,a) are both true (or both false for distinct elements), the comparator is no strict order and the result of the sort depends on the order the elements were collected in — the map-iteration order", asym)
+				continue
+			}
 			switch {
 			case len(bad) > 0:
 				o.Fail("the comparator compares keys that passed through a lossy transform (%s): distinct elements can compare equal and, the sort not being stable, keep the map-iteration order they were collected in — the rendered object order (and the template hash) can differ between renders", strings.Join(dedupe(bad), ", "))
@@ -160,4 +164,103 @@ func sortKeyRule(c *Ctx) {
 func init() {
 	addRule("C13", Rule{ID: "C13.R7", Min: 2, Run: sortKeyRule,
 		Statement: "comparators of the sorts that establish the rendered order are strict total orders on distinct elements: the compared keys derive from the elements through injective steps only (no lossy string transform)"})
+}
+
+
+// comparatorAsymmetry: in a two-parameter comparator, every ordering comparison `ka OP kb` must
+// apply the same key function to both elements: the expression tree of one operand with the first
+// parameter abstracted must equal that of the other operand with the second parameter abstracted.
+// Returns a description of the first comparison for which this is not the case ("" = symmetric or
+// not of that shape).
+func (p *Program) comparatorAsymmetry(cmp *ssa.Function) string {
+	if len(cmp.Params) != 2 {
+		return ""
+	}
+	a, b := cmp.Params[0], cmp.Params[1]
+	var shape func(v ssa.Value, hole *ssa.Parameter, d int) string
+	shape = func(v ssa.Value, hole *ssa.Parameter, d int) string {
+		if d > 14 {
+			return "…"
+		}
+		switch x := v.(type) {
+		case *ssa.Parameter:
+			if x == hole {
+				return "$"
+			}
+			return "param:" + x.Name()
+		case *ssa.Const:
+			if x.Value == nil {
+				return "nil"
+			}
+			return x.Value.ExactString()
+		case *ssa.FreeVar:
+			return "free:" + x.Name()
+		case *ssa.Global:
+			return "global:" + x.Name()
+		case *ssa.Call:
+			parts := []string{calleeID(x.Common())}
+			if x.Common().IsInvoke() {
+				parts = append(parts, shape(x.Common().Value, hole, d+1))
+			}
+			for _, arg := range x.Common().Args {
+				parts = append(parts, shape(arg, hole, d+1))
+			}
+			return "call(" + strings.Join(parts, ",") + ")"
+		case *ssa.BinOp:
+			return "(" + shape(x.X, hole, d+1) + x.Op.String() + shape(x.Y, hole, d+1) + ")"
+		case *ssa.UnOp:
+			return x.Op.String() + shape(x.X, hole, d+1)
+		case *ssa.IndexAddr:
+			return shape(x.X, hole, d+1) + "[" + shape(x.Index, hole, d+1) + "]"
+		case *ssa.Index:
+			return shape(x.X, hole, d+1) + "[" + shape(x.Index, hole, d+1) + "]"
+		case *ssa.FieldAddr:
+			return shape(x.X, hole, d+1) + "." + fieldName(x.X.Type(), x.Field)
+		case *ssa.Field:
+			return shape(x.X, hole, d+1) + "." + fieldName(x.X.Type(), x.Field)
+		case *ssa.Extract:
+			return shape(x.Tuple, hole, d+1) + "#" + string(rune('0'+x.Index))
+		case *ssa.MakeInterface:
+			return shape(x.X, hole, d+1)
+		case *ssa.ChangeType:
+			return shape(x.X, hole, d+1)
+		case *ssa.Convert:
+			return "conv(" + shape(x.X, hole, d+1) + ")"
+		case *ssa.Lookup:
+			return shape(x.X, hole, d+1) + "[" + shape(x.Index, hole, d+1) + "]"
+		case *ssa.Slice:
+			return "slice(" + shape(x.X, hole, d+1) + ")"
+		}
+		return "?" + v.Name()
+	}
+	uses := func(v ssa.Value, prm *ssa.Parameter) bool { return dependsOnValue(v, prm, 14) }
+	for _, blk := range cmp.Blocks {
+		for _, in := range blk.Instrs {
+			bo, ok := in.(*ssa.BinOp)
+			if !ok {
+				continue
+			}
+			switch bo.Op {
+			case token.LSS, token.GTR, token.LEQ, token.GEQ:
+			default:
+				continue
+			}
+			var sx, sy string
+			switch {
+			case uses(bo.X, a) && !uses(bo.X, b) && uses(bo.Y, b) && !uses(bo.Y, a):
+				sx, sy = shape(bo.X, a, 0), shape(bo.Y, b, 0)
+			case uses(bo.X, b) && !uses(bo.X, a) && uses(bo.Y, a) && !uses(bo.Y, b):
+				sx, sy = shape(bo.X, b, 0), shape(bo.Y, a, 0)
+			default:
+				continue
+			}
+			if strings.Contains(sx, "?") || strings.Contains(sy, "?") || strings.Contains(sx, "…") {
+				continue
+			}
+			if sx != sy {
+				return "the two operands compared at " + p.IPos(bo) + " are not the same function of their elements (" + shortPkg(sx) + " vs " + shortPkg(sy) + ")"
+			}
+		}
+	}
+	return ""
 }
